@@ -254,6 +254,9 @@ class Interp:
         """isinstance(exc, target) for exception classes."""
         if isinstance(target, tuple):
             return any(self.exc_matches(exc, t) for t in target)
+        if not isinstance(target, (ClassObj, BuiltinClass)):
+            # `except X` where X is not a class (a list of classes...): Python raises TypeError when an exception arrives
+            self.raise_builtin('TypeError', 'catching classes that do not inherit from BaseException is not allowed')
         return self.isinstance_(exc, target)
 
     # ------------------------------------------------------------------ modules
@@ -2233,6 +2236,8 @@ class Interp:
             c = fn.cls.lookup('__call__')
             if c is not _MISSING:
                 return self.call(c, [fn] + list(args), kwargs)
+        if isinstance(fn, Opaque) and '__call__' in fn.methods:
+            return fn.methods['__call__'](self, fn, list(args), kwargs)
         if fn is None or is_num(fn) or isinstance(fn, (str, PyList, PyDict, EnumMember)):
             self.raise_builtin('TypeError', "'%s' object is not callable" % self.typename(fn))
         if callable(fn) and all(_native(a) for a in args) and all(_native(v) for v in kwargs.values()):
